@@ -1,8 +1,41 @@
 /- Small list lemmas missing from core. -/
+import EyeballVerif.Lemmas.Tactics
 namespace EV
 
 theorem map_eraseIdx {α β} (f : α → β) (l : List α) (i : Nat) :
     (l.map f).eraseIdx i = (l.eraseIdx i).map f := by
   simp [List.eraseIdx_eq_take_drop_succ, List.map_take, List.map_drop]
+
+theorem take_eraseIdx_push {α} (v : List α) (i L : Nat) (x : α) (hL : L ≠ 0) (hi : i < L) (hiv : i < v.length)
+    (hx : (v.eraseIdx i)[L - 1]? = some x) : (v.take L).eraseIdx i ++ [x] = (v.eraseIdx i).take L := by
+  have hlen : L - 1 < (v.eraseIdx i).length := by
+    rcases List.getElem?_eq_some_iff.mp hx with ⟨h1, _⟩; exact h1
+  rw [List.length_eraseIdx] at hlen
+  simp only [hiv, if_true] at hlen
+  rw [List.getElem?_eraseIdx] at hx
+  apply List.ext_getElem?; intro j
+  simp only [List.getElem?_append, List.getElem?_take, List.getElem?_eraseIdx, List.length_eraseIdx, List.length_take,
+    List.getElem?_cons, List.getElem?_nil]
+  by_cases hj : j = L - 1
+  · subst hj
+    have : L - 1 + 1 = L := by omega
+    grind
+  · grind
+
+theorem drop_eraseIdx_push {α} (v : List α) (i L : Nat) (x : α) (hi : i ≥ v.length - L) (hiv : i < v.length)
+    (h0 : v.length - L ≠ 0)
+    (hx : (v.eraseIdx i)[v.length - L - 1]? = some x) :
+    x :: (v.drop (v.length - L)).eraseIdx (i - (v.length - L)) = (v.eraseIdx i).drop ((v.eraseIdx i).length - L) := by
+  rw [List.getElem?_eraseIdx] at hx
+  have hlen : (v.eraseIdx i).length = v.length - 1 := by rw [List.length_eraseIdx]; simp [hiv]
+  rw [hlen]
+  apply List.ext_getElem?; intro j
+  simp only [List.getElem?_cons, List.getElem?_drop, List.getElem?_eraseIdx]
+  by_cases hj : j = 0
+  · subst hj
+    have e : v.length - 1 - L + 0 = v.length - L - 1 := by omega
+    simp only [e, if_true]
+    grind
+  · grind
 
 end EV
